@@ -147,3 +147,20 @@ pub proof fn lemma_min_max(s: Seq<ValueState>, upto: int, b: u64)
 pub open spec fn bv(v: Vec<Vec<u8>>) -> Seq<Vec<u8>> { v@ }
 pub open spec fn mv(v: Vec<MembershipProof>) -> Seq<MembershipProof> { v@ }
 pub open spec fn nv(v: Vec<NonMembershipProof>) -> Seq<NonMembershipProof> { v@ }
+
+// ---- the selection a history answer is built from
+pub uninterp spec fn user_data_of<S: Database>(storage: &StorageManager<S>, label: Seq<u8>) -> Result<KeyData, StorageError>;
+pub open spec fn newest_first(s: Seq<ValueState>) -> bool {
+    forall|i: int, j: int| #![trigger s[i], s[j]] 0 <= i < j < s.len() ==> s[i].epoch >= s[j].epoch
+}
+pub open spec fn cut(s: Seq<ValueState>, params: HistoryParams) -> Seq<ValueState> {
+    match params {
+        HistoryParams::Complete => s,
+        HistoryParams::MostRecent(n) => s.take(if n <= s.len() { n as int } else { s.len() as int }),
+    }
+}
+// out = the stored states of the label that are not newer than the served epoch, newest first, all of them or the newest min(N, total)
+pub open spec fn selected(all: Seq<ValueState>, epoch: u64, params: HistoryParams, out: Seq<ValueState>) -> bool {
+    exists|sorted: Seq<ValueState>| sorted.to_multiset() == all.filter(|s: ValueState| s.epoch <= epoch).to_multiset()
+        && newest_first(sorted) && #[trigger] cut(sorted, params) == out
+}
